@@ -38,14 +38,16 @@ func reached(class string) bool {
 	return true
 }
 
-// runExec performs one execution and turns the observation into tags / violations.
-func runExec(oc *fw.Outcome, e *Exec, verbose bool) {
-	oc.Evals++
+// finding is one violated requirement of one execution; the finding key is prefix + construct.
+type finding struct {
+	prefix string
+	what   string
+}
+
+// observe performs one execution and returns its observation class and the violated requirements.
+func observe(oc *fw.Outcome, e *Exec, count bool) (o obs, fs []finding, program string, extra map[string]any) {
 	fam := e.Fam
-	t0 := time.Now()
-	var o obs
-	var program string
-	extra := map[string]any{}
+	extra = map[string]any{}
 	switch e.Mode {
 	case "sub":
 		o, program = runSub(e)
@@ -53,17 +55,20 @@ func runExec(oc *fw.Outcome, e *Exec, verbose bool) {
 		var ho httpObs
 		ho, program = runHTTP(e)
 		o = ho.obs
-		for _, r := range ho.replies {
-			oc.Tag(fam + "/reply:" + r)
-		}
 		extra["replies"] = ho.replies
-		if ho.restarts > 3 || ho.recvs > 4 {
-			oc.Violate("restarts:"+e.Con, fmt.Sprintf("restarts=%d, vcl_recv entered %d times in one request (bound: 3 restarts)", ho.restarts, ho.recvs), detail(e, program, o, extra))
+		if count {
+			for _, r := range ho.replies {
+				oc.Tag(fam + "/reply:" + r)
+			}
+			oc.TagN(fam+"/requests", int64(len(ho.replies)))
+		}
+		// vcl_recv entries are only a restart count where the program never calls vcl_recv itself (F4)
+		if ho.restarts > 3 || (fam == "F4" && ho.recvs > 4) {
+			fs = append(fs, finding{"restarts:", fmt.Sprintf("restarts=%d, vcl_recv entered %d times in one request (bound: 3 restarts)", ho.restarts, ho.recvs)})
 		}
 		if ho.bad != "" {
-			oc.Violate("reply:"+ho.bad+"/"+e.Con, "ServeHTTP returned neither a 200 JSON document nor a reported error: "+ho.badWhat, detail(e, program, o, extra))
+			fs = append(fs, finding{"reply:" + ho.bad + "/", "ServeHTTP returned neither a 200 JSON document nor a reported error: " + ho.badWhat})
 		}
-		oc.TagN(fam+"/requests", int64(len(ho.replies)))
 	case "tester":
 		var to testerObs
 		to, program = runTester(e)
@@ -73,9 +78,25 @@ func runExec(oc *fw.Outcome, e *Exec, verbose bool) {
 			o.class = "tester-no-case"
 		}
 	default:
-		oc.Inconc = append(oc.Inconc, "unknown mode "+e.Mode)
-		return
+		o.class, o.msg = "harness-error", "unknown mode "+e.Mode
 	}
+	switch o.class {
+	case "panic":
+		fs = append(fs, finding{fw.PanicKey(o.stack) + "/", fmt.Sprintf("%s panicked: %s\nprogram:\n%s\n%s", modeName(e.Mode), o.msg, clip(program, 1500), topFrames(o.stack, 8))})
+	case "steps":
+		fs = append(fs, finding{"steps:", fmt.Sprintf("%s executed more than %d statements for one request\nprogram:\n%s", modeName(e.Mode), stepBudget, clip(program, 1500))})
+	case "tester-timeout":
+		fs = append(fs, finding{"hang:tester-timeout/", "the tester gave up after its own timeout (the test goroutine keeps running)\nprogram:\n" + clip(program, 1500)})
+	}
+	return
+}
+
+// runExec performs one execution and turns the observation into tags / violations.
+func runExec(oc *fw.Outcome, e *Exec, verbose bool) {
+	oc.Evals++
+	fam := e.Fam
+	t0 := time.Now()
+	o, fs, program, extra := observe(oc, e, true)
 	wall := time.Since(t0)
 	oc.Tag("fam/" + fam)
 	oc.Tag(fam + "/" + o.class)
@@ -89,14 +110,31 @@ func runExec(oc *fw.Outcome, e *Exec, verbose bool) {
 	if reached(o.class) && e.Bound {
 		oc.NonTrivialS(e.Mode + "|" + e.Scope + "|" + program)
 	}
+	for _, f := range fs {
+		con := e.Con
+		d := detail(e, program, o, extra)
+		// localisation: a combination is re-run with each of its parts alone; when a part alone shows the
+		// same violation the finding belongs to that part's construct
+		for i := range e.Alts {
+			alt := *e
+			alt.Alts, alt.Main, alt.Con = nil, e.Alts[i].Main, e.Alts[i].Con
+			_, fs2, p2, _ := observe(oc, &alt, false)
+			hit := false
+			for _, f2 := range fs2 {
+				if f2.prefix == f.prefix {
+					hit = true
+				}
+			}
+			if hit {
+				con = alt.Con
+				d["localised_from"] = e.Con
+				d["program"] = clip(p2, 6000)
+				break
+			}
+		}
+		oc.Violate(f.prefix+con, f.what, d)
+	}
 	switch o.class {
-	case "panic":
-		key := fw.PanicKey(o.stack) + "/" + e.Con
-		oc.Violate(key, fmt.Sprintf("%s panicked: %s\nminimal program:\n%s\n%s", modeName(e.Mode), o.msg, clip(program, 1500), topFrames(o.stack, 8)), detail(e, program, o, extra))
-	case "steps":
-		oc.Violate("steps:"+e.Con, fmt.Sprintf("%s executed more than %d statements for one request\nprogram:\n%s", modeName(e.Mode), stepBudget, clip(program, 1500)), detail(e, program, o, extra))
-	case "tester-timeout":
-		oc.Violate("hang:tester-timeout/"+e.Con, "the tester gave up after its own timeout (the test goroutine keeps running)\nprogram:\n"+clip(program, 1500), detail(e, program, o, extra))
 	case "tester-no-case":
 		oc.Inconc = append(oc.Inconc, "harness: tester produced no TestCase for "+e.Con)
 	case "harness-error":
@@ -201,10 +239,18 @@ func crashKey(c fw.Case, kind, stderr string) string {
 	if frame == "" {
 		frame = "?"
 	}
+	overflow := strings.Contains(rest, "stack overflow") || strings.Contains(rest, "goroutine stack exceeds")
+	if overflow {
+		// the frame on top when the limit was hit is arbitrary: name the recursing function instead
+		// (the falco function that occurs most often in the dump; ties: the one nearest to the top)
+		if f := recursingFrame(rest); f != "" {
+			frame = f
+		}
+	}
 	switch {
 	case kind == "hung":
 		return "hang:" + frame + "/" + con
-	case strings.Contains(rest, "stack overflow") || strings.Contains(rest, "goroutine stack exceeds"):
+	case overflow:
 		return "fatal:stack overflow in " + frame + "/" + con
 	case strings.Contains(rest, "out of memory") || strings.Contains(rest, "cannot allocate memory"):
 		return "fatal:out of memory in " + frame + "/" + con
@@ -215,6 +261,38 @@ func crashKey(c fw.Case, kind, stderr string) string {
 		return "panic:" + frame + "/" + con
 	}
 	return "died:unknown/" + con
+}
+
+func recursingFrame(dump string) string {
+	count := map[string]int{}
+	var order []string
+	for _, line := range strings.Split(dump, "\n") {
+		if strings.HasPrefix(line, "goroutine ") && len(order) > 0 {
+			break // only the overflowing goroutine (printed first)
+		}
+		line = strings.TrimSpace(line)
+		if !strings.HasPrefix(line, "github.com/ysugimoto/falco/v2/interpreter") && !strings.HasPrefix(line, "github.com/ysugimoto/falco/v2/tester") {
+			continue
+		}
+		if i := strings.LastIndex(line, "("); i > 0 {
+			line = line[:i]
+		}
+		line = strings.TrimPrefix(line, "github.com/ysugimoto/falco/v2/")
+		if count[line] == 0 {
+			order = append(order, line)
+		}
+		count[line]++
+	}
+	best := ""
+	for _, f := range order {
+		if best == "" || count[f] > count[best] {
+			best = f
+		}
+	}
+	if count[best] < 3 {
+		return ""
+	}
+	return best
 }
 
 // ---- finish: complete list of keys, per-family counters ------------------------------------------------
